@@ -585,6 +585,130 @@ def emit_fn(name, f, tr=lambda e: e):
     return "\n".join(lines)
 
 
+# -------------------------------------------------------------------- regularity predicates (Gen/Dom)
+def dom_conds(e, partial):
+    """side-conditions, in evaluation order, under which no partial primitive application inside `e` is singular:
+    a / b -> b != 0;  a % m -> m != 0;  a ** c (non-integer literal c) -> 0 < a;  sqrt a -> 0 <= a;  tan a -> cos a != 0;
+    log a -> 0 < a;  arccos a -> -1 <= a <= 1;  f(args) -> f.Dom args (when f is not transitively total).
+    nan_to_num(e, ...) contributes the conditions of e: the replacement values have no real meaning (DESIGN.md 3.4)."""
+    if not isinstance(e, tuple) or not e:
+        return []
+    k = e[0]
+    if k in ("var", "const", "libconst"):
+        return []
+    if k == "npow":
+        return dom_conds(e[1], partial)
+    if k == "rpow":
+        return dom_conds(e[1], partial) + [f"0 < {em(e[1])}"]
+    if k in ("div", "mod"):
+        out = dom_conds(e[1], partial) + dom_conds(e[2], partial)
+        if not (e[2][0] == "const" and e[2][1] != 0):
+            out.append(f"{em(e[2])} ≠ 0")
+        return out
+    if k == "lib1":
+        out = dom_conds(e[2], partial)
+        a = em(e[2])
+        if e[1] == "sqrt":
+            out.append(f"0 ≤ {a}")
+        elif e[1] == "tan":
+            out.append(f"pCos {a} ≠ 0")
+        elif e[1] == "log":
+            out.append(f"0 < {a}")
+        elif e[1] == "arccos":
+            out += [f"-1 ≤ {a}", f"{a} ≤ 1"]
+        return out
+    if k == "lib2":
+        return dom_conds(e[2], partial) + dom_conds(e[3], partial)
+    if k == "nan_to_num":
+        return dom_conds(e[1], partial)
+    if k == "call":
+        out = []
+        for a in e[2]:
+            out += dom_conds(a, partial)
+        if e[1] in partial:
+            out.append("(" + e[1] + ".Dom" + "".join(" " + em(a) for a in e[2]) + ")")
+        return out
+    out = []
+    for x in e[1:]:
+        if isinstance(x, tuple):
+            out += dom_conds(x, partial)
+    return out
+
+
+def own_partial(e):
+    """does the expression itself apply a partial primitive?"""
+    return bool(dom_conds(e, set()))
+
+
+def emit_dom(name, f, partial):
+    ps = " ".join(f"({lname(p)} : S)" for p in f["params"])
+    lines = [f"/-- regularity of `{name}` ({f['where']}): no partial primitive is applied at a singular point -/",
+             f"def {name}.Dom {ps} : Prop :="]
+    if name not in partial:
+        lines.append("  True")
+        return "\n".join(lines), 0
+    seen_ = set(f["params"])
+    rebinds = False
+    for tgt, _ in f["body"]:
+        for x in ([tgt[1]] if tgt[0] == "v" else list(tgt[1])):
+            rebinds = rebinds or x in seen_
+            seen_.add(x)
+    if rebinds:
+        # a name is assigned twice: keep each statement's conditions in the scope they are evaluated in
+        n_ = 0
+        tmpc = 0
+        for tgt, val in f["body"]:
+            cs = dom_conds(val, partial)
+            n_ += len(cs)
+            for c in cs:
+                lines.append(f"  ({c}) ∧")
+            if tgt[0] == "v":
+                lines.append(f"  let {lname(tgt[1])} := {em(val)}")
+            else:
+                tmpc += 1
+                tv = f"tup{tmpc}_"
+                lines.append(f"  let {tv} := {em(val)}")
+                for i, x in enumerate(tgt[1]):
+                    lines.append(f"  let {lname(x)} := {proj(tv, i, len(tgt[1]))}")
+        cs = dom_conds(f["ret"], partial)
+        lines.append("  " + (" ∧ ".join(f"({c})" for c in cs) if cs else "True"))
+        return "\n".join(lines), n_ + len(cs)
+    conds = []
+    tmpc = 0
+    for tgt, val in f["body"]:
+        conds += dom_conds(val, partial)
+        if tgt[0] == "v":
+            lines.append(f"  let {lname(tgt[1])} := {em(val)}")
+        else:
+            tmpc += 1
+            tv = f"tup{tmpc}_"
+            lines.append(f"  let {tv} := {em(val)}")
+            n = len(tgt[1])
+            for i, x in enumerate(tgt[1]):
+                lines.append(f"  let {lname(x)} := {proj(tv, i, n)}")
+        # conditions of this statement hold with the names bound so far: emit them lazily at the end (names are never rebound
+        # with a different meaning before use only if single-assignment; checked below)
+    conds += dom_conds(f["ret"], partial)
+    conds = list(dict.fromkeys(conds))
+    lines.append("  " + " ∧ ".join(f"({c})" for c in conds))
+    return "\n".join(lines), len(conds)
+
+
+def emit_evaldom(mid, tb, partial):
+    shape = tb["shape"]
+    nk = len(shape)
+    na = tb["nscalar"] + tb["ncoord"]
+    kargs = " ".join(f"(k{i} : {KTY[s]})" for i, s in enumerate(shape))
+    aargs = " ".join(f"(a{i} : S)" for i in range(na))
+    out = [f"/-- regularity of the variant of `{mid}` found under each key -/",
+           f"def {mid}.evalDom {kargs} {aargs} : Prop :=",
+           "  match " + ", ".join(f"k{i}" for i in range(nk)) + " with"]
+    for e in tb["entries"]:
+        pat = ", ".join("." + k[1] for k in e["key"])
+        out.append(f"  | {pat} => {e['fn']}.Dom " + " ".join(f"a{i}" for i in range(na)))
+    return "\n".join(out)
+
+
 def calls_of(e, acc):
     if isinstance(e, tuple):
         if e and e[0] == "call":
@@ -742,6 +866,18 @@ open VK
 open scoped VR
 noncomputable section
 """
+HEAD_DOM = """import VectorModel.Gen.Real.{unit}
+{imports}
+/-! Regularity predicates `<f>.Dom` (generated every run): the conjunction of the side-conditions of every partial primitive
+application (`/`, `%`, non-integer power, `sqrt`, `tan`, `log`, `arccos`) in `<f>` and, through `<callee>.Dom`, in its callees.
+Under `<f>.Dom` no IEEE exceptional value arises in exact arithmetic and Lean's totalised `x / 0 = 0`, `√(-1) = 0`, `log 0 = 0`
+are never consulted.  Functions that are transitively free of partial primitives have `Dom := True`. -/
+set_option linter.unusedVariables false
+set_option maxRecDepth 4096
+namespace VR
+open VK
+noncomputable section
+"""
 BODY_BEGIN = "-- BODY-BEGIN (identical in Gen/Real and Gen/Exec)\n"
 BODY_END = "-- BODY-END\n"
 
@@ -792,6 +928,16 @@ def main():
             calls_of(v, acc)
         calls_of(f["ret"], acc)
         fdeps[nm] = acc
+    # functions that (transitively) apply a partial primitive
+    partial = {n for n, f in tr.ir.items() if own_partial(f["ret"]) or any(own_partial(v) for _, v in f["body"])}
+    grew = True
+    while grew:
+        grew = False
+        for n in tr.ir:
+            if n not in partial and fdeps[n] & partial:
+                partial.add(n)
+                grew = True
+    dom_nconds = {}
     mods = sorted(set(tr.fn_mod[n] for n in tr.ir))
     mgraph = {m: set() for m in mods}
     for nm, acc in fdeps.items():
@@ -858,6 +1004,25 @@ def main():
             live.add(os.path.join(GEN, kind, u + ".lean"))
         unit_info[u] = {"modules": comp, "deps": deps, "functions": order,
                         "bodyhash": hashlib.sha256(body.encode()).hexdigest()[:16]}
+        # ---- regularity predicates
+        dom = [HEAD_DOM.format(unit=u, imports="\n".join(f"import VectorModel.Gen.Dom.{d}" for d in deps))]
+        for n in order:
+            txt, nc = emit_dom(n, tr.ir[n], partial)
+            dom_nconds[n] = nc
+            dom.append(txt)
+            dom.append("")
+        for m in comp:
+            if m in tr.tables and not any(mm == m for mm, _ in tr.missing):
+                dom.append(emit_evaldom(m, tr.tables[m], partial))
+                dom.append("")
+        for m in comp:
+            names = [n + ".Dom" for n in order if tr.fn_mod[n] == m]
+            if m in tr.tables and not any(mm == m for mm, _ in tr.missing):
+                names.append(f"{m}.evalDom")
+            dom.append(f"attribute [dd_{m}] " + " ".join(names))
+        dom.append("end\nend VR\n")
+        write_if_changed(os.path.join(GEN, "Dom", u + ".lean"), "\n".join(dom))
+        live.add(os.path.join(GEN, "Dom", u + ".lean"))
         # ---- third copy (C08): the same functions as vector._lib.SympyLib evaluates them, + congruence theorems
         sym = [HEAD_SYM.format(imports="\n".join([f"import VectorModel.Gen.Real.{u}"] + [f"import VectorModel.Gen.Sym.{d}" for d in deps]))]
         for n in order:
@@ -911,6 +1076,7 @@ def main():
          "/-! simp sets `d_<module>`: the generated definitions of each compute module (regenerated every run). -/"]
     for m in mods:
         A.append(f"/-- generated definitions of compute module {m} -/\nregister_simp_attr d_{m}")
+        A.append(f"/-- generated regularity predicates of compute module {m} -/\nregister_simp_attr dd_{m}")
     write_if_changed(os.path.join(GEN, "Attrs.lean"), "\n".join(A) + "\n")
     live.add(os.path.join(GEN, "Attrs.lean"))
     # Tables.lean
@@ -944,7 +1110,9 @@ def main():
     symall = "\n".join(f"import VectorModel.Gen.Sym.{u}" for u, _ in units) + "\n"
     write_if_changed(os.path.join(GEN, "Sym", "All.lean"), symall)
     live.add(os.path.join(GEN, "Sym", "All.lean"))
-    for kind in ("Real", "Exec", "Sym"):
+    write_if_changed(os.path.join(GEN, "Dom", "All.lean"), "\n".join(f"import VectorModel.Gen.Dom.{u}" for u, _ in units) + "\n")
+    live.add(os.path.join(GEN, "Dom", "All.lean"))
+    for kind in ("Real", "Exec", "Sym", "Dom"):
         d = os.path.join(GEN, kind)
         for fn in os.listdir(d):
             p = os.path.join(d, fn)
@@ -959,6 +1127,7 @@ def main():
         return 3
     index.update({
         "sym_clean": sorted(clean), "sym_dirty": sorted(dirty),
+        "partial": sorted(partial), "dom_conditions": sum(dom_nconds.values()),
         "ok": True,
         "units": unit_info,
         "tables": tr.tables,
